@@ -1,8 +1,10 @@
 package props
 
 import (
+	"bytes"
 	"fmt"
 	"io"
+	"os"
 	"runtime"
 	"sort"
 	"strings"
@@ -81,6 +83,31 @@ type streamCase struct {
 	Plan      []int        `json:"plan,omitempty"`   // chunk plan (C10)
 	Delays    []int        `json:"delays,omitempty"` // delay plan (C08)
 	Procs     int          `json:"gomaxprocs,omitempty"`
+	Source    string       `json:"source,omitempty"` // "" harness reader | "eof-with-data" | "bytes.Reader@offset" | "os.File@offset"
+	Hdr       int          `json:"header_bytes,omitempty"`
+}
+
+// openSource builds the source a case asks for over the given stream.
+func openSource(c streamCase, stream []byte) (io.Reader, func()) {
+	switch c.Source {
+	case "bytes.Reader@offset", "os.File@offset":
+		hdr := make([]byte, 1+c.Hdr) // hostile header: zeros that must never be judged
+		full := append(append([]byte{}, hdr...), stream...)
+		if c.Source == "os.File@offset" {
+			if f, err := os.CreateTemp(envOr("VERIF_SCRATCH", os.TempDir()), "src-*.bin"); err == nil {
+				_, _ = f.Write(full)
+				_, _ = f.Seek(int64(len(hdr)), io.SeekStart)
+				return f, func() { f.Close(); os.Remove(f.Name()) }
+			}
+		}
+		br := bytes.NewReader(full)
+		_, _ = br.Seek(int64(len(hdr)), io.SeekStart)
+		return br, func() {}
+	}
+	r := gen.NewReader(stream)
+	r.Plan, r.Delays = c.Plan, c.Delays
+	r.EOFWithData = c.Source == "eof-with-data"
+	return r, func() {}
 }
 
 func (c streamCase) wf() workflow { return workflows[c.Workflow] }
@@ -436,6 +463,13 @@ func drawStream(t *rapid.T, wname string, targets []string) streamCase {
 		}
 	}
 	c.Samples = shuffleSpecs(t, specs[:w.S])
+	switch rapid.IntRange(0, 7).Draw(t, "source") {
+	case 0:
+		c.Source = "eof-with-data" // exactly s samples, the last Read returns the final bytes together with io.EOF
+		return c
+	case 1:
+		c.Source, c.Hdr = rapid.SampledFrom([]string{"bytes.Reader@offset", "os.File@offset"}).Draw(t, "std"), rapid.IntRange(0, 5000).Draw(t, "hdr")
+	}
 	if rapid.IntRange(0, 2).Draw(t, "trail") == 0 {
 		c.Trailing = rapid.SampledFrom([]int{1, w.SampleBytes - 1, w.SampleBytes, 3 * w.SampleBytes}).Draw(t, "trailing")
 		c.TrailKind = rapid.SampledFrom([]string{"zero", "random"}).Draw(t, "trailkind")
